@@ -150,6 +150,9 @@ def norm(
     if isinstance(ord, Real) and np.isinf(ord):
         op = mg_max if ord > 0 else mg_min
         abs_ = absolute(x, constant=constant)
+        if not issubclass(abs_.dtype.type, (np.inexact, np.object_)):
+            # numpy.linalg.norm computes the norm of a non-floating array in float64
+            abs_ = abs_.astype(np.float64, constant=True)
         out = op(abs_, axis=axis, keepdims=keepdims)
 
         in_ndim = abs_.ndim
